@@ -43,9 +43,10 @@ RULE = ('L0: toy declarations (5 forms) x receivers x shapes; L1: every discover
         '{sub1, sub2, viaclass, own} x (positional count x keyword set x raise) x 2 token pools, every module-level '
         'alias binding x shapes x pools; TS: every alias declaration; DP: every decorated callable x keyword subsets x '
         'shapes; L2: every recipe x argument set.  A case is non-trivial when the sentinel / both paired calls were '
-        'actually executed (L1 own: only when the receiver class resolves the replacement to another function than '
-        'the class declaring the alias; L2: both sides completed and the result is not None or a side effect was '
-        'compared); distinct = distinct (layer, receiver, alias, variant, shape, pool) keys.')
+        'actually executed and compared (L1 own: only when the receiver class resolves the replacement to another '
+        'function than the class declaring the alias; TS: only when an independent candidate exists; DP: only with at '
+        'least one obsolete keyword; L2: both sides executed - pairs where both raise the same exception type are '
+        'counted separately); distinct = distinct (layer, receiver, alias, variant, shape, pool / recipe label) keys.')
 ASSUMPTIONS = [
     'aliases are found through the wrapper mark __deprecated__/__newname__ (fallback: closure variable names, for '
     'discovery only); an independent AST scan of the package sources must find the same number of @deprecated / '
@@ -124,7 +125,7 @@ def _is_alias(f):
     except Exception:
         return False
     code = getattr(f, '__code__', None)
-    if code is not None and {'new_func', 'old_func'} <= set(code.co_freevars):
+    if code is not None and 'new_func' in code.co_freevars and hasattr(f, '__wrapped__'):
         return True  # unmarked wrapper: recognised by its closure (discovery only)
     return False
 
@@ -1922,8 +1923,9 @@ def l2_replay(case, rec):
 
 def _viol(rec, layer, kindkey, label, bad, case):
     for clause, detail, expected, observed in bad:
-        rec.violation(f'C20|{clause}|{kindkey}', f'[{layer}] {label}: {clause}: {detail}', case,
-                      expected=expected, observed=observed)
+        rec.violation(f'C20|{clause}|{kindkey}', _mask(f'[{layer}] {label}: {clause}: {detail}'), case,
+                      expected=_mask(expected) if isinstance(expected, str) else expected,
+                      observed=_mask(observed) if isinstance(observed, str) else observed)
 
 
 def run_task(task):
@@ -2020,7 +2022,34 @@ def run_task(task):
 
 
 # =========================================================================== cross-task oracle
+COLLAPSE_OVER = 3
+
+
+def collapse_keys(violations):
+    """A fault in the shared wrapper fails the same clause for many aliases: more than COLLAPSE_OVER per-alias keys of one
+    (clause, kind) are folded into a single key '<kind>:*' (first = simplest witness kept, the others listed)."""
+    groups = {}
+    for v in violations:
+        parts = v['key'].split('|', 2)
+        if len(parts) == 3 and ':' in parts[2] and parts[2].split(':', 1)[0] in ('method', 'function', 'keyword'):
+            groups.setdefault((parts[1], parts[2].split(':', 1)[0]), {}).setdefault(v['key'], []).append(v)
+    out = list(violations)
+    for (clause, kind), by_key in groups.items():
+        if len(by_key) <= COLLAPSE_OVER:
+            continue
+        members = [v for vs in by_key.values() for v in vs]
+        ids = {id(v) for v in members}
+        out = [v for v in out if id(v) not in ids]
+        first = members[0]
+        names = sorted(k.split('|', 2)[2].split(':', 1)[1] for k in by_key)
+        out.append(dict(first, key=f'C20|{clause}|{kind}:*',
+                        what=first['what'] + f'  [same clause fails for {len(names)} aliases: {", ".join(names)[:1500]}]',
+                        more=sum(1 + v.get('more', 0) for v in members) - 1))
+    return out
+
+
 def finalize(agg, tier, seed):
+    agg.violations[:] = collapse_keys(agg.violations)
     c = agg.counts
     n_decl = c.get('discovered_function_alias_declarations', 0) + c.get('discovered_class_level_alias_declarations', 0)
     if n_decl == 0 or c.get('discovered_class_alias_pairs', 0) == 0:
